@@ -306,6 +306,11 @@ func (r *Raft) onSnapshotTaken(t snapTaken) {
 		}
 		if nowCompact > r.log.PrevIndex() {
 			_ = r.compactLog(nowCompact)
+			if r.state == Leader && r.ldr.removeLTE < r.log.PrevIndex() {
+				// log views given to replications should not start
+				// before the compacted log
+				r.ldr.removeLTE = r.log.PrevIndex()
+			}
 		}
 		if canCompact > nowCompact {
 			// notify repls with new logView
